@@ -126,8 +126,14 @@ def _observer_classes():
 
     from job_shop_lib.dispatching.feature_observers import IsReadyObserver
 
+    class Rec2Sub(Rec2):
+        """a subclass of the non-singleton recorder that adds nothing: an instance of Rec2 all the same"""
+
+    class RecSub(Rec):
+        """a subclass of the singleton recorder"""
+
     return [HistoryObserver, UnscheduledOperationsObserver, MakespanReward, IdleTimeReward,
-            Rec, Rec2, IsReadyObserver]
+            Rec, Rec2, IsReadyObserver, Rec2Sub, RecSub]
 
 
 _CLASSES = None
@@ -371,6 +377,9 @@ class ImplSession:
                             return _r()
                         o.update, o.reset = upd, rst
                 return []
+            elif tag == 14:
+                self.checkpoint(ev[1])
+                return []
             elif tag == 10:
                 # a constructor call that is rejected (ValidationError): a feature observer asked for a feature
                 # type outside its supported_feature_types. It must leave no trace on the dispatcher.
@@ -404,6 +413,44 @@ class ImplSession:
             self.exc_calls = list(self.calls)
             return [common.exn_code(e)] + ([["notified-despite-exception"]] if self.calls and tag in (0, 8) else [])
         return [0, common.norm(out)]
+
+    def checkpoint(self, which):
+        """[14, which]: a deep copy of everything the caller holds (the dispatcher with its instance, schedule and
+        subscribers, the observers, the environment) is taken with copy.deepcopy. which = 0: the session goes on
+        with the COPY (it must be in the very state of the original); which = 1: the copy is played with
+        (reset) and thrown away, the session goes on with the original (which must not notice). For the model this
+        is a no-op."""
+        import copy
+
+        if self.__dict__.get("counted") or self.__dict__.get("foreign"):
+            return
+        everybody = list(self.objs)
+        for o in self.dispatcher.subscribers:
+            if not any(o is x for x in everybody):
+                everybody.append(o)
+        wrapped = []
+        for o in everybody:
+            if getattr(o, "_verif_wrapped", False):
+                wrapped.append((o, o._verif_holder["idx"]))
+                del o.update, o.reset, o._verif_wrapped, o._verif_holder
+        try:
+            d2, every2, env2 = copy.deepcopy((self.dispatcher, everybody, self.env))
+        finally:
+            for o, idx in wrapped:
+                self._wrap(o, idx)
+        if which == 1:
+            if env2 is not None:
+                env2.reset()
+            else:
+                d2.reset()
+            return
+        self.dispatcher = d2
+        self.env = env2
+        self.instance = d2.instance
+        self.objs[:] = every2[:len(self.objs)]
+        del self.calls[:]
+        for o, idx in wrapped:
+            self._wrap(every2[next(i for i, x in enumerate(everybody) if x is o)], idx)
 
     def evaluate_rule(self, r):
         """calls a dispatching rule on the dispatcher and throws the selection away (rules must not change
@@ -556,7 +603,7 @@ def run_session(spec, filters, events, env=None):
 def model_case(spec, filters, events):
     # event 11 (a library observer attached outside the model world: it must not influence the dispatcher) is
     # a no-op for the model
-    return (1, [spec, filters, [[9, 0] if ev[0] in (11, 13) else ev for ev in expand_events(events)]])
+    return (1, [spec, filters, [[9, 0] if ev[0] in (11, 13, 14) else ev for ev in expand_events(events)]])
 
 
 def expand_events(events):
